@@ -26,6 +26,11 @@ pub(super) fn derive_schema(input: TokenStream) -> syn::Result<TokenStream> {
             &*container_attrs.serde.from,
             &*container_attrs.serde.try_from,
         ) {
+            (None, None, None) if matches!(s.fields, Fields::Unit) => {/* `struct T;` is written as `null` */
+                quote! {
+                    ::ohkami::openapi::null()
+                }
+            }
             (None, None, None) => schema_of_fields(s.fields, &container_attrs)?,
             (Some(t), _, _) | (_, Some(t), _) | (_, _, Some(t)) => {
                 let t = syn::parse_str::<Type>(t)?;
